@@ -48,7 +48,8 @@ import (
 
 var slack = 4 * time.Second
 
-const hangCap = 30 * time.Second
+var hangCap = 6 * time.Second
+
 const settleMax = 10 * time.Second
 
 // ---- servers ----
@@ -464,6 +465,14 @@ func exec(line string, st *hx.Stats) string {
 	o := runOnce(sv, storeID, rq, mode, ms)
 	g := "ok"
 	extra := ""
+	dup := 0
+	if dupThis(m) {
+		dup = 1
+	}
+	if o.t == "hang" {
+		st.Inc("hang")
+		return fmt.Sprintf("res=%s t=hang g=unknown dup=%d stk=%s", o.res, dup, stacks())
+	}
 	if o.t == "late" {
 		// once more: a loaded machine can delay a return; a real hang repeats
 		o2 := runOnce(sv, storeID, rq, mode, ms)
@@ -484,7 +493,34 @@ func exec(line string, st *hx.Stats) string {
 		}
 	}
 	st.Inc("res:" + o.res)
-	return fmt.Sprintf("res=%s t=%s g=%s%s", o.res, o.t, g, extra)
+	return fmt.Sprintf("res=%s t=%s g=%s dup=%d%s", o.res, o.t, g, dup, extra)
+}
+
+// dupThis: some relation has two direct-assignment leaves in its rewrite and a userset restriction on itself
+func dupThis(m *fga.Model) bool {
+	var count func(rw *fga.Rewrite) int
+	count = func(rw *fga.Rewrite) int {
+		n := 0
+		if rw.Kind == "this" {
+			n = 1
+		}
+		for _, k := range rw.Kids {
+			n += count(k)
+		}
+		return n
+	}
+	for _, t := range m.Types {
+		for _, rd := range t.Rels {
+			if count(rd.Rewrite) >= 2 {
+				for _, x := range rd.Restrs {
+					if x.Rel != "" {
+						return true
+					}
+				}
+			}
+		}
+	}
+	return false
 }
 
 // ---- generator ----
@@ -498,7 +534,7 @@ func gen(r *hx.Rand, n int, tier string, emit func(string), st *hx.Stats) {
 		maxRing, maxFan = 200, 2000
 		treeB, treeD = 5, 11
 	}
-	cfgs := []string{"v1", "v1", "b1", "v2", "pipe", "cache"}
+	cfgs := []string{"v1", "v1", "b1", "b1", "v2", "pipe", "cache"}
 	rpcs := []string{"check", "check", "batch", "listobjects", "streamed", "listusers", "expand"}
 	for i := 0; i < n; i++ {
 		c := r.Fork()
@@ -523,6 +559,9 @@ func gen(r *hx.Rand, n int, tier string, emit func(string), st *hx.Stats) {
 			d := 3 + c.Intn(treeD-2)
 			p2 = strconv.Itoa(d)
 			heavy = true
+			if c.Chance(2, 3) {
+				variant = hx.Pick(c, []int{7, 8, 9, 23, 24}) // nobody has access: every path is explored
+			}
 		default:
 			family = "rand"
 			seed := c.Intn(1 << 30)
@@ -543,6 +582,10 @@ func gen(r *hx.Rand, n int, tier string, emit func(string), st *hx.Stats) {
 			continue
 		}
 		mode, ms := pickMode(c, heavy)
+		if cfg == "b1" && !heavy && (rpc == "check" || rpc == "batch") && c.Chance(3, 4) {
+			// pool of one and no deadline: a sender that blocks on its channel blocks the whole reducer for good
+			mode, ms = "none", 0
+		}
 		emit(fmt.Sprintf("c20 %s %s %d %s %s %d %s %d %s%s", cfg, family, p1, p2, rpc, variant, mode, ms, bigEnc, tail))
 		st.Inc(family)
 		st.Inc("mode:" + mode)
@@ -568,6 +611,11 @@ func main() {
 	if v := os.Getenv("C20_SLACK_MS"); v != "" {
 		if n, err := strconv.Atoi(v); err == nil {
 			slack = time.Duration(n) * time.Millisecond
+		}
+	}
+	for _, a := range os.Args {
+		if a == "thorough" {
+			hangCap = 30 * time.Second
 		}
 	}
 	hx.Main(hx.Harness{Gen: gen, Exec: exec})
